@@ -61,7 +61,7 @@ def check_cpu_bin(prog, rep, m):
     search = [a for a in atoms if isinstance(a, Sym) and ('~wout' in a.name or '~w' in a.name)]
     lab = [a for a in atoms if isinstance(a, App) and a.name == 'read' and a.args[0] == newv and len(a.args) == 2]
     nb = [a for a in atoms if isinstance(a, App) and a.name in ('len', 'shape')]
-    if len(fin) != 1 or len(b0) != 1 or len(bl) != 1 or len(lab) != 1 or len(search) != 1:
+    if len(fin) != 1 or len(b0) != 1 or len(bl) != 1 or len(lab) < 1 or len(search) != 1:
         rep.add('K1', f, entry, 'per-cell class decision', f.node.lineno, None if fin else False,
                 'expected one finite test, first/last break reads, one search result and one label read (finite tests %d, first %d, '
                 'last %d, labels %d, search results %d): without a finite test NaN/inf cells receive a class' % (
@@ -77,13 +77,19 @@ def check_cpu_bin(prog, rep, m):
                 env = {fin[0]: Fraction(isf), val: Fraction(v), b0[0]: Fraction(10), bl[0]: Fraction(20), search[0]: Fraction(7)}
                 for a in nb:
                     env[a] = Fraction(9)
+
+                def label_hook(key_, idx_):
+                    if key_ != newv or len(idx_) != 1:
+                        raise CannotEvaluate('read of %s' % key_)
+                    return 1000 + idx_[0]
+                env['__read__'] = label_hook
                 got = 'none'
                 for st in cell_stores:
                     if all(eval_cond_full(g, env) for g in st.guards):
                         if isinstance(st.value, Rat) and st.value == Rat.atom(App('nan', [])):
                             got = 'nan'
-                        elif isinstance(st.value, Rat) and st.value == Rat.atom(lab[0]):
-                            got = int(evaluate(lab[0].args[1], env))
+                        elif isinstance(st.value, Rat) and any(st.value == Rat.atom(l_) for l_ in lab):
+                            got = int(evaluate(st.value, {k_: v_ for k_, v_ in env.items() if k_ not in lab})) - 1000
                         else:
                             got = 'other:%s' % show(st.value, 40)
                 if not isf:
